@@ -48,6 +48,7 @@ def ordinary_bytes(n, ident):
 
 TERMINATOR_LENGTHS = {
     "jmp": (2, 5), "jcc": (2, 6), "call": (5,), "ret": (1, 3), "ijmp": (2, 3, 6, 7), "icall": (2, 3, 6, 7),
+    "sys": (2,),
 }
 TERMINATOR_BYTES = {
     ("jmp", 2): b"\xeb\x00", ("jmp", 5): b"\xe9\x00\x00\x00\x00",
@@ -58,6 +59,7 @@ TERMINATOR_BYTES = {
     ("ijmp", 7): b"\xff\x24\x25\x00\x00\x00\x00",
     ("icall", 2): b"\xff\xd0", ("icall", 3): b"\xff\x50\x08", ("icall", 6): b"\xff\x90\x00\x00\x00\x00",
     ("icall", 7): b"\xff\x14\x25\x00\x00\x00\x00",
+    ("sys", 2): b"\x0f\x05",
 }
 
 
@@ -303,8 +305,12 @@ class Scenario:
                 t = self.symbols[dst[4:]].referent
             else:
                 t = self.blocks[dst]
-            typ = {"fallthrough": FT.Fallthrough, "branch": FT.Branch, "call": FT.Call, "return": FT.Return}[kind]
-            cfg.add(gtirb.Edge(s, t, _lbl(typ, cond, direct)))
+            typ = {"fallthrough": FT.Fallthrough, "branch": FT.Branch, "call": FT.Call, "return": FT.Return,
+                   "syscall": FT.Syscall}[kind]
+            if spec.get("unlabelled_ijmp") and kind == "branch" and dst is None:
+                cfg.add(gtirb.Edge(s, t, None))  # an unresolved indirect jump recorded without a label
+            else:
+                cfg.add(gtirb.Edge(s, t, _lbl(typ, cond, direct)))
         if spec.get("entry_point"):
             m.entry_point = self.blocks[spec["entry_point"]]
         # ---- cfi directives ------------------------------------------------------
